@@ -1,6 +1,6 @@
 ----------------------------- MODULE Conf_ARIA ------------------------------
 EXTENDS ARIA, Json, IOUtils
-VARIABLES l, inst
+VARIABLES tpos, inst
 Rec == ndJsonDeserialize(IOEnv.TRACE)
 OSched(t, k, x) == ARIASched(t, k, x)
 OEnc(ks, b) == ARIAEnc(ks, b)
